@@ -3,9 +3,11 @@ C04 — line breaking: TeX's definition of a feasible break sequence and of its 
 demerits, and a reference optimiser (dynamic programme over the number of lines) that is
 *proved* optimal in `Props/C04.lean`.
 
-This is deliberately NOT a transcription of `break_line_single_attempt`'s active-list
-bookkeeping (crates/boxworks-knuthplass/src/lib.rs): it is the property's own yardstick. The
-implementation's answer is judged against it on every run (see harness/src/bin/c04.rs):
+This file is deliberately NOT a transcription of `break_line_single_attempt`'s active-list
+bookkeeping (crates/boxworks-knuthplass/src/lib.rs): it is the property's own yardstick (the
+transcription is `Model/C04Algo.lean`, proved sound and optimal against this yardstick in
+`Props/C04.lean`). The implementation's answer is judged against it on every run (see
+harness/src/bin/c04.rs):
 the returned break sequence must be feasible, its total (recomputed here) must equal the
 proved optimum, and `None` must coincide with "no feasible sequence". The per-line quantities
 (badness, fitness class, demerits) are tied to the code through the `debug::Logger` callbacks.
